@@ -86,6 +86,9 @@ IsPre(v)  == v.pre # 0 \/ v.dev # 0          \* Version.is_prerelease
 IsPost(v) == v.post # 0                       \* Version.is_postrelease
 \* !=X.* shortening refuses post-release bounds and guards the segment index (fix commit 298a9c4)
 HoleRenderGuardsPost == TRUE
+\* the !=X.Y.* prefix is taken from the zero-padded segments (fix commit: `<1||>=1.1.0` was rendered `!=1.*`,
+\* Python's release[:first_different] silently truncating); FALSE models the historical slice
+WildcardPrefixFromPadded == TRUE
 \* ~=X.Y shortening still accepts a post-release upper bound: `>=1.2,<2.0.post1` renders as `~=1.2`.
 \* The repository's own test test_range_str_normalization[value10-~=1.2] pins this rendering, so it is a
 \* recorded finding (known_findings.json), modelled as the code behaves and named here:
@@ -127,7 +130,8 @@ SimplifiedHole(left, right) ==
      ELSE IF fd >= n THEN (IF HoleRenderGuardsPost THEN [k |-> "plain", cl |-> Clause("!=", lm)]
                            ELSE [k |-> "raises", cl |-> Clause("!=", lm)])          \* right_stable[first_different]: IndexError
      ELSE IF fd > 0 /\ b[fd + 1] - a[fd + 1] = 1 /\ fd + 2 <= n /\ (\A i \in (fd + 2)..n : a[i] = 0 /\ b[i] = 0)
-          THEN [k |-> "newild", cl |-> Clause("!=*", Stable(lm.ep, SubSeq(lm.rel, 1, fd)))]
+          THEN [k |-> "newild", cl |-> Clause("!=*", Stable(lm.ep, IF WildcardPrefixFromPadded THEN SubSeq(Pad(lm.rel, M), 1, fd)
+                                                                         ELSE SubSeq(lm.rel, 1, IF fd < Len(lm.rel) THEN fd ELSE Len(lm.rel))))]
      ELSE [k |-> "plain", cl |-> Clause("!=", lm)]
 HoleRoundTrips(left, right) ==
   LET s == SimplifiedHole(left, right) IN
